@@ -193,12 +193,13 @@ func withPristine(w *simrt.World, f func()) {
 	f()
 }
 
-func (propC01) Run(scI interface{}) *Outcome {
+func (propC01) Run(scI interface{}) (o *Outcome) {
 	sc := scI.(*c01Sc)
-	o := &Outcome{Probes: map[string]int64{}}
-	w := simrt.Begin(simrt.Config{Seed: sc.WorldSeed, PoolPolicy: sc.Pool, PoolDropPct: sc.Drop, MapOrder: simrt.OrderSorted,
+	o = &Outcome{Probes: map[string]int64{}}
+	w := simrt.Begin(simrt.Config{PreemptDen: 4, Seed: sc.WorldSeed, PoolPolicy: sc.Pool, PoolDropPct: sc.Drop, MapOrder: simrt.OrderSorted,
 		ClockStart: 1_700_000_000e9, ClockStep: sc.ClockStep})
 	defer simrt.End()
+	defer underScheduler(w, o)()
 	twig.SetDebugWriter(io.Discard)
 	savedGlobals := twig.VerifSwapGlobals(nil) // every run starts from empty process-wide caches
 	defer twig.VerifSwapGlobals(savedGlobals)
